@@ -7,6 +7,8 @@ recycled underneath it) and a sweep releases the tuples nobody else references a
 exactly the objects CPython would have freed.
 
 policy 'fresh'       : a new tuple always gets a never-used identity (no recycling at all);
+policy 'recycle'     : deterministic CPython-like recycling: a new tuple receives the identity of the most recently
+                       freed tuple of the same length (used for a second pass of the op-write-op histories);
 policy 'adversarial' : when a new tuple is named, the explorer may answer with the identity of a
                        freed tuple that still has a live registration in the alias tracker
                        (an enumerated environment choice; see props/c15.py).
@@ -27,6 +29,7 @@ class VAlloc:
         self.named = 0
         self.sweep_every = sweep_every
         self.reuse_log = []
+        self.freeby = {}                # recycle policy: tuple length -> stack of freed vids
         probe = (object(),)
         holder = [probe]
         self._base = sys.getrefcount(holder[0]) - 1   # refs seen by getrefcount when only `holder` + local hold it
@@ -45,6 +48,13 @@ class VAlloc:
         if ent is not None and ent[0] is obj:
             return ent[1]
         v = None
+        if self.policy == "recycle":
+            # CPython-like: a freed tuple's identity is handed to the next new tuple of the same length (LIFO)
+            self.sweep()
+            stack = self.freeby.get(len(obj))
+            if stack:
+                v = stack.pop()
+                self.reuse_log.append(v)
         if self.policy == "adversarial" and self.chooser is not None:
             self.sweep()
             cands = self.reuse_candidates()
@@ -75,6 +85,8 @@ class VAlloc:
             ent = self.map.pop(rid)
             if self.policy == "adversarial":
                 self.free.append(ent[1])
+            elif self.policy == "recycle":
+                self.freeby.setdefault(len(ent[0]), []).append(ent[1])
         return len(dead)
 
     def reuse_candidates(self):
